@@ -349,6 +349,59 @@ def cursor_step_rule(rep, mods):
                  (bad[0][1].where() if bad else '%s:%d' % (f.file, f.line)), detail, fact={'cursors': len(ss)})
 
 
+def byte_eq_rule(rep, mods):
+    """R-BYTEEQ: the character-search functions compare the byte read from memory and the search value `c` as the same
+    kind of 8-bit quantity: both extended the same way (or both left as i8).  A zero-extended byte compared with a
+    sign-extended (char)c can never be equal for values 0x80..0xFF: memchr(buf, 0xff, n) would miss a present byte."""
+    # strchr and strrchr delegate the scan to strchrnul / strchr
+    for name, carg in (('memchr', 1), ('memrchr', 1), ('strchrnul', 1)):
+        if name not in mods:
+            continue
+        f = mods[name].fn(name)
+        found = 0
+
+        def kind(v):
+            """('load'|'arg', extension or None) for an icmp operand derived from a byte load / from parameter c"""
+            ext = None
+            for _ in range(6):
+                if v.k == 'arg':
+                    return ('arg' if v.argno == carg else None), ext
+                i = f.inst_of(v)
+                if i is None:
+                    return None, ext
+                if i.op in ('zext', 'sext'):
+                    if ext is None:
+                        ext = i.op
+                    v = i.ops[0]
+                elif i.op == 'trunc':
+                    v = i.ops[0]
+                elif i.op == 'load' and i.bits == 8:
+                    return 'load', ext
+                elif i.op == 'and' and any(o.k == 'ci' and o.uval == 255 for o in i.ops):
+                    if ext is None:
+                        ext = 'zext'
+                    v = [o for o in i.ops if o.k != 'ci'][0]
+                else:
+                    return None, ext
+            return None, ext
+        for c in f.all_insts():
+            if c.op != 'icmp' or c.pred not in ('eq', 'ne'):
+                continue
+            ka, kb = kind(c.ops[0]), kind(c.ops[1])
+            if {ka[0], kb[0]} != {'load', 'arg'}:
+                continue
+            found += 1
+            ok = ka[1] == kb[1]
+            rep.inst('R-BYTEEQ', name, 'byte-and-search-value-compared-as-the-same-8-bit-kind', ok, c.where(),
+                     None if ok else 'the byte read from memory is %s, the search value is %s before they are compared: '
+                     'values 0x80..0xFF never compare equal (e.g. %s(buf, 0xff, ...) misses a present byte)'
+                     % (*[{'zext': 'zero-extended', 'sext': 'sign-extended', None: 'not extended'}[k[1]]
+                          for k in sorted((ka, kb), key=lambda t: t[0] != 'load')], name),
+                     fact={'load': ka[1] if ka[0] == 'load' else kb[1], 'c': ka[1] if ka[0] == 'arg' else kb[1]})
+        if found == 0:
+            raise AnalysisBroken('%s: comparison of a byte with the search value not found (anchor changed)' % name)
+
+
 def movedir(rep, mod):
     """memmove: bounds for overlapping ranges in both orders (abstract interpretation) and copy direction: in the
     dst-above-src case both cursors start at the far end and move downwards, each access after the decrement"""
@@ -556,9 +609,11 @@ def run(rep, repo, tier):
     ascending_rule(rep, mods['memcpy'])
     cursor_step_rule(rep, mods)
     uchar_rule(rep, mods)
+    byte_eq_rule(rep, mods)
     rep.floor('R-LIBC:bounds', 40)
     rep.floor('R-LIBC:post', 30)
     rep.floor('R-UCHAR', 3)
+    rep.floor('R-BYTEEQ', 3)
     rep.floor('R-WORDALIGN', 2)
     rep.floor('R-MEMMOVE', 3)
     rep.floor('R-CURSORSTEP', 8)
